@@ -131,7 +131,9 @@ type down struct{ r *run }
 func (d down) EstimatedTags() int { return 0 }
 func (d down) WaitForEvents()     {}
 func (d down) DispatchMetricMap(ctx context.Context, mm *gostatsd.MetricMap) {
-	vsched.Access(d.r.logObj, true, "downstream-metrics")
+	// deliveries are ordered against each other only when an oracle looks at their order (the waiter);
+	// otherwise they commute: the oracle reads the multiset of deliveries
+	vsched.Access(d.r.logObj, d.r.c.Waiter, "downstream-metrics")
 	mm.Counters.Each(func(name, _ string, c gostatsd.Counter) {
 		var id int
 		fmt.Sscanf(name, "m%d", &id)
@@ -144,7 +146,7 @@ func (d down) DispatchMetricMap(ctx context.Context, mm *gostatsd.MetricMap) {
 	})
 }
 func (d down) DispatchEvent(ctx context.Context, e *gostatsd.Event) {
-	vsched.Access(d.r.logObj, true, "downstream-event")
+	vsched.Access(d.r.logObj, d.r.c.Waiter, "downstream-event")
 	var id int
 	fmt.Sscanf(e.Title, "e%d", &id)
 	d.r.out = append(d.r.out, outItem{'e', id, e.Source, append([]string{}, e.Tags...), 0})
